@@ -23,7 +23,10 @@ def candidates(mach):
         for n in list(s.spaces):
             out.append({"op": "new_cells", "space": p, "name": n, "src": "lambda x: x", "why": "cells-vs-space"})
             out.append({"op": "set_ref", "space": p, "name": n, "value": {"t": "int", "v": 5}, "why": "ref-vs-space"})
+        for n in list(s.spaces):
+            out.append({"op": "new_cells", "space": p, "name": n, "src": "def %s(x):\n    return x" % n, "autoname": True, "why": "cells-vs-space-autoname"})
         for n in list(dr):
+            out.append({"op": "new_cells", "space": p, "name": n, "src": "def %s(x):\n    return x" % n, "autoname": True, "why": "cells-vs-ref-autoname"})
             out.append({"op": "new_cells", "space": p, "name": n, "src": "lambda x: x", "why": "cells-vs-ref"})
             out.append({"op": "new_space", "parent": p, "name": n, "bases": [], "why": "space-vs-ref"})
         for n in list(dc):
